@@ -659,7 +659,7 @@ fn pipeline_case(out: &mut Out, rt: &tokio::runtime::Runtime, id: &mut Ident, w:
 	}
 	for z in 0u8..32 {
 		if let Some((x0, y0, x1, y1)) = got[z as usize] {
-			if (x1 - x0) as u64 * (y1 - y0) as u64 > 600 {
+			if (x1 - x0 + 1) as u64 * (y1 - y0 + 1) as u64 > 600 { // tiles in the box (a one-column box of 2^30 rows is not small)
 				continue;
 			}
 			let m = ((1u64 << z) - 1) as u32;
@@ -694,7 +694,7 @@ fn pipeline_case(out: &mut Out, rt: &tokio::runtime::Runtime, id: &mut Ident, w:
 				(v.iter().map(|p| p.0).min().unwrap(), v.iter().map(|p| p.1).min().unwrap(), v.iter().map(|p| p.0).max().unwrap(), v.iter().map(|p| p.1).max().unwrap())
 			}
 		};
-		if (x1 - x0) as u64 * (y1 - y0) as u64 > 600 {
+		if (x1 - x0 + 1) as u64 * (y1 - y0 + 1) as u64 > 600 { // tiles in the box (a one-column box of 2^30 rows is not small)
 			continue;
 		}
 		let b = TileBBox::new(z, x0.saturating_sub(2), y0.saturating_sub(2), (x1 as u64 + 2).min(m as u64) as u32, (y1 as u64 + 2).min(m as u64) as u32).unwrap();
@@ -789,7 +789,13 @@ pub fn run(args: &Args) {
 	let mut next = 1u64;
 	let np = args.n(60, 600);
 	for i in 0..np {
-		let specs = gen_sources(&mut rng, &mut next, 2, 4, 24);
+		let mut specs = gen_sources(&mut rng, &mut next, 2, 4, 24);
+		// the slow-lookup leaf kinds (`mem^`, `pmtiles^`, `tar^`: lookups yield a coordinate-dependent number of times) exist for
+		// C02's scheduling cases; coverage does not depend on scheduling, and C03 streams every advertised box twice, which
+		// takes minutes over such leaves: use the plain kind here
+		for s in specs.iter_mut() {
+			s.kind = s.kind.replace('^', "");
+		}
 		let levels = levels_of(&specs);
 		let w = World::build(&ctx.rt, &dir, &specs);
 		if !w.usable() {
